@@ -439,16 +439,19 @@ func checkC12(p *Prog, r *Report) {
 	}
 	/* main. */
 	var isCall *ssa.Call
+	var allIs []*ssa.Call /* every test which asks whether the final error is ErrOneShellClosed */
 	eachInstr(rm, func(i ssa.Instruction) {
 		c, ok := i.(*ssa.Call)
 		if ok && "errors.Is" == calleeName(c.Common()) {
 			if globalLoadName(c.Common().Args[1]) == "ErrOneShellClosed" {
 				isCall = c
+				allIs = append(allIs, c)
 			}
 			/* Or one of a fixed table of errors which lists it. */
 			for _, n := range tableElemNames(p, c.Common().Args[1]) {
 				if "ErrOneShellClosed" == n {
 					isCall = c
+					allIs = append(allIs, c)
 				}
 			}
 		}
@@ -490,13 +493,48 @@ func checkC12(p *Prog, r *Report) {
 			if dc.Eq {
 				trueEdge = 0
 			}
-			/* From the edge "is ErrOneShellClosed", no non-zero return. */
-			bad := reachQ{From: edgeLoc(ifi.Block(), trueEdge), Target: func(i ssa.Instruction) bool {
+			/* From the edge "is ErrOneShellClosed", no non-zero return —
+			on the ways on which the same question, asked of the same
+			error elsewhere (a reason for the log, say), gets the same
+			answer, and the error is not nil. */
+			consistent := map[Edge]bool{}
+			errV := isCall.Common().Args[0]
+			for _, oc := range allIs {
+				if oc == isCall || oc.Common().Args[0] != errV {
+					continue
+				}
+				for _, ref := range *oc.Referrers() {
+					var oif *ssa.If
+					neg := false
+					switch x := ref.(type) {
+					case *ssa.If:
+						oif = x
+					case *ssa.UnOp:
+						for _, r2 := range *x.Referrers() {
+							if y, ok := r2.(*ssa.If); ok && token.NOT == x.Op {
+								oif, neg = y, true
+							}
+						}
+					}
+					if nil == oif {
+						continue
+					}
+					falseEdge := 1
+					if neg {
+						falseEdge = 0
+					}
+					consistent[Edge{oif.Block().Index, oif.Block().Succs[falseEdge].Index}] = true
+				}
+			}
+			for _, t := range nilTestsOf(rm, errV) {
+				consistent[Edge{t.If.Block().Index, t.If.Block().Succs[t.NilSucc].Index}] = true
+			}
+			bad := reachQ{From: edgeLoc(ifi.Block(), trueEdge), NoEdges: consistent, TargetF: func(i ssa.Instruction, facts nilFacts) bool {
 				ret, ok := i.(*ssa.Return)
 				if !ok || 1 != len(ret.Results) {
 					return false
 				}
-				k, isC := constInt(retVal(ret, 0))
+				k, isC := retIntOnPath(retVal(ret, 0), facts)
 				return !isC || 0 != k
 			}}.run()
 			if nil != bad {
